@@ -550,7 +550,14 @@ def make_dict_hash(d):
     # insert more dictionary items, the order of the items won't change. Thus,
     # we can just take the items list and make a tuple to create a hash of it.
     # The hash will be the same for two dictionaries having the same items.
-    return hash(tuple(d.items()))
+    #
+    # Float values enter with their exact representation, because the hashes of
+    # different floats can be equal (hash(-1.0) == hash(-2.0) in CPython), which
+    # would give two different grid values the same dictionary hash.
+    return hash(tuple(
+        (k, (float(v) + 0.0).hex() if isinstance(v, (float, np.floating)) else v)
+        for (k, v) in d.items()
+    ))
 
 
 class ObjectCollection(
